@@ -37,6 +37,85 @@ func runC19(c *Ctx) {
 	c19R5(c)
 	c19R6(c)
 	c19R7(c)
+	c19R8(c)
+}
+
+// c19R8: on the cache-hit path too, the digest that is checked and recorded is computed from the bytes.
+func c19R8(c *Ctx) {
+	r := c.R.Rule("R8", "K3/K6 cache hits are re-hashed: CacheLookup reports a hit only behind the equality edge of the key with the SHA-256 it computed over the bytes it read, and stageArtifact's cache-hit return is behind a SHA-256 over the cached bytes (the digest CheckCorruption compares is never the declared one decoded back); atomicfile.WriteFile returns nil only after the rename", 4)
+	sum := c.W.ExtObj("crypto/sha256", "Sum256")
+	isSumOf := func(call ssa.CallInstruction, data ssa.Value) bool {
+		f := kit.CalleeOf(call.Common())
+		if f == nil || types.Object(f) != sum {
+			return false
+		}
+		a := call.Common().Args
+		return len(a) == 1 && (a[0] == data || kit.DerivesFrom(a[0], func(v ssa.Value) bool { return v == data }))
+	}
+	hitReturns := func(fn *ssa.Function, idx int) []ssa.Instruction {
+		var out []ssa.Instruction
+		for _, ret := range kit.Returns(fn) {
+			if len(ret.Results) > idx && kit.IsBoolConst(kit.RetVal(ret, idx), true) {
+				out = append(out, ret)
+			}
+		}
+		return out
+	}
+	if fn := c.SSA(r, pRegistry, "CacheLookup"); fn != nil {
+		readFile := c.ExtFunc(r, "os", "ReadFile")
+		hits := hitReturns(fn, 1)
+		if len(hits) == 0 {
+			c.R.Fail(r, "CacheLookup: hit return", c.Pos(fn.Pos()), "no `return data, true, nil` found")
+		}
+		gSum := kit.NewGates()
+		for _, rf := range kit.CallsTo(fn, Set(readFile)) {
+			data := kit.ResultN(rf, 0)
+			for _, b := range fn.Blocks {
+				for _, in := range b.Instrs {
+					if ci, ok := in.(ssa.CallInstruction); ok && data != nil && isSumOf(ci, data) {
+						gSum.AddInstr(in, "sha256.Sum256(data)")
+					}
+				}
+			}
+		}
+		c.Dominated(r, "CacheLookup: a hit only after hashing the bytes read", hits, gSum, "sha256.Sum256 over the bytes read from the cache file")
+		keyP := argParam(fn, 1)
+		gEq := kit.NewGates().AddEdges(kit.CmpEdges(fn, func(b *ssa.BinOp) (bool, bool) {
+			if b.X == keyP || b.Y == keyP || kit.IsVar(b.X, keyP) || kit.IsVar(b.Y, keyP) {
+				switch b.Op {
+				case token.EQL:
+					return true, true
+				case token.NEQ:
+					return true, false
+				}
+			}
+			return false, false
+		}), "computed digest == key")
+		c.Dominated(r, "CacheLookup: a hit only when the computed digest equals the key", hits, gEq, "the hex(sha256(data)) == digestHex edge")
+	}
+	if fn := c.SSA(r, pRegistry, "stageArtifact"); fn != nil {
+		lookup := c.Fn(r, pRegistry, "CacheLookup")
+		hits := hitReturns(fn, 1)
+		gSum := kit.NewGates()
+		for _, lc := range kit.CallsTo(fn, Set(lookup)) {
+			data := kit.ResultN(lc, 0)
+			for _, b := range fn.Blocks {
+				for _, in := range b.Instrs {
+					if ci, ok := in.(ssa.CallInstruction); ok && data != nil && isSumOf(ci, data) {
+						gSum.AddInstr(in, "sha256.Sum256(cached)")
+					}
+				}
+			}
+		}
+		if len(hits) > 0 {
+			c.Dominated(r, "stageArtifact: the cache-hit result carries a digest computed over the cached bytes", hits, gSum, "sha256.Sum256 over the bytes CacheLookup returned")
+		}
+	}
+	if fn := c.SSA(r, pAtomicfile, "WriteFile"); fn != nil {
+		rename := c.ExtFunc(r, "os", "Rename")
+		nilRets, _ := kit.NilReturns(fn)
+		c.Dominated(r, "atomicfile.WriteFile: success only after the rename", asInstrs(nilRets), okGates(kit.CallsTo(fn, Set(rename)), ""), "the os.Rename success edge (no path creates the target in place)")
+	}
 }
 
 // c19R7: (a) the extracted binary is handed on only after it was opened with the no-follow
